@@ -851,6 +851,10 @@ def rule_roleargs(ctx):
             callee = tm.callee_name(c.fn)
             if not ctx.program.has_func(callee):
                 continue
+            if c.d.get("inlined_from") and ctx.program.resigned(c.d["inlined_from"]):
+                # a call made inside a directional helper (_gauc(est, ref) for precision) that is evaluated in place
+                # because its signature changed: inside the helper the names `ref` / `est` are positions, not roles
+                continue
             g = ctx.program.func(callee)
             binds = bind_args(g, c)
             problems = []
